@@ -64,6 +64,7 @@ Section Statements.
       exits_ok [CCancel r] tr = true.
 
   (* Over a whole life of one thread -- any sequence of Cancel / Uncancel /
+     SetMaxExecutionSteps / ExecutionSteps reads /
      executions under any schedules, with any Cancel / Uncancel calls by built-ins
      and other goroutines during the executions: the reason in force at the end is
      the first Cancel since the last Uncancel (Spec.first_reason, defined on the
@@ -161,6 +162,14 @@ Theorem recursion_bounded : forall St dispatch host entry_err t s sched c tr,
   run St dispatch host true entry_err (start St true entry_err t s) sched = (Running c, tr) ->
   N.of_nat (length (stk c)) <= depth_limit + 1 /\ stack_ok (stk c).
 Proof. exact recursion_bounded_lemma. Qed.
+
+(* SetMaxExecutionSteps is not an operation on the cancellation state: whatever
+   the new limit, the reason in force (if any) stays in force. *)
+Theorem set_max_keeps_reason :
+  forall t n, cancel (set_max_execution_steps t n) = cancel t /\
+              steps (set_max_execution_steps t n) = steps t /\
+              onmax (set_max_execution_steps t n) = onmax t.
+Proof. intros t n. repeat split. Qed.
 
 (* ---- non-vacuity: the hypotheses hold on concrete, non-trivial inputs ---- *)
 
